@@ -11,12 +11,14 @@ RULE = ("kinds: jtest_linear (quadratic H: exact step matrix M from basis vector
         "control (non-symplectic methods must FAIL the J-test: the monitor can fire); non-trivial = probe executed with a finite defect; "
         "distinct by (kind, method, hamiltonian, layout, route, sign, seed)")
 ASSUMPTIONS = ["finite-difference J-test: delta=1e-5 in longdouble, threshold 1e-8; exact linear J-test threshold 1e4*eps*cond (splitting) / 1e3*solver tolerance (implicit)"]
-FLOORS = {"quick": {"jtest_linear": 24, "jtest_fd": 24, "reverse_probes": 24, "energy_runs": 6, "mask_probes": 27, "controls_fired": 3, "reuse_probes": 20},
-          "thorough": {"jtest_linear": 60, "jtest_fd": 60, "reverse_probes": 60, "energy_runs": 36, "mask_probes": 180, "controls_fired": 20, "reuse_probes": 150}}
+FLOORS = {"quick": {"jtest_linear": 24, "jtest_fd": 24, "reverse_probes": 24, "energy_runs": 6, "mask_probes": 36, "controls_fired": 3, "reuse_probes": 20,
+                    "hard_steps_accepted": 10, "hard_reverse_probes": 6, "hard_jtest_probes": 6},
+          "thorough": {"jtest_linear": 60, "jtest_fd": 60, "reverse_probes": 60, "energy_runs": 36, "mask_probes": 240, "controls_fired": 20, "reuse_probes": 150,
+                       "hard_steps_accepted": 60, "hard_reverse_probes": 40, "hard_jtest_probes": 40}}
 CASE_TIMEOUT = 1200
 SPLIT = ["SymplecticEulerSolver", "ABAs5o6HSolver", "BABs9o7HSolver"]
 LAYOUTS = ["qp", "pq", "interleaved"]
-ROUTES = ["set_kick_vars", "set_method", "constructor"]
+ROUTES = ["set_kick_vars", "set_method", "constructor", "method_change"]
 
 
 def symplectic_methods():
@@ -53,6 +55,13 @@ def gen_cases(tier, seed):
         for r in range(1 if tier == "quick" else 6):
             cases.append(dict(kind="reuse", method=name, ham=str(rng.choice(["pendulum", "duffing", "henon_heiles", "quartic_chain", "coupled_quadratic"])),
                               h=float(rng.choice([-1, 1])) * float(rng.uniform(0.05, 0.4)), pseed=int(rng.integers(1 << 30)), cost=3 if M[name]["explicit"] else 20))
+    # steps so long that the stage iteration of the implicit symplectic methods may fail: whatever (dTime, dState) is handed back, with the
+    # library's own controller or with a user adaptation_fn in its place, must be a step of the symplectic, symmetric map of size dTime
+    for name in [n_ for n_ in sym if not M[n_]["explicit"]]:
+        for r in range(6 if tier == "quick" else 40):
+            cases.append(dict(kind="hard_step", method=name, ham=str(rng.choice(["pendulum", "duffing", "henon_heiles", "quartic_chain"])),
+                              h=float(rng.choice([-1, 1])) * float(rng.choice([1.0, 1.5, 2.0, 3.0])), controller=str(rng.choice(["user_fn", "user_fn", "own"])),
+                              tol=float(rng.choice([0.0, 1e-12])), pseed=int(rng.integers(1 << 30)), cost=40))
     for name in (["RK4Solver", "LobattoIIIA4", "EulerSolver", "RadauIIA5"] if tier == "quick" else [n for n, i in M.items() if not i["symplectic"]]):
         for r in range(1 if tier == "quick" else 2):
             cases.append(dict(kind="control", method=name, ham="pendulum", h=float(rng.uniform(0.3, 0.6)), pseed=int(rng.integers(1 << 30)), cost=4 if M[name]["explicit"] else 60))
@@ -165,6 +174,8 @@ def run_case(spec):
             rec.sample["return_error"] = err
             if err > unit:
                 rec.violate("time_reversibility", "step_h_then_minus_h_does_not_return", feats, err=err, unit=unit)
+        elif kind == "hard_step":
+            return _hard_step(spec, info, ham, rhs, y, h, rec, feats, J, n)
         elif kind == "reuse":
             return _reuse(spec, info, ham, rhs, y, h, rec, feats, J, n)
         elif kind == "energy":
@@ -173,6 +184,68 @@ def run_case(spec):
             return _mask(spec, info, ham, rhs, y, h, rec, feats, J, mask, n)
     except AttributeError as e:
         rec.violate("mask_route_broken", "AttributeError", feats, err=repr(e)[:300])
+    return rec.out()
+
+
+def _hard_step(spec, info, ham, rhs, y, h, rec, feats, J, n):
+    import desolver as de
+    dt_ = np.dtype("float64")
+    feats = dict(feats, controller=spec["controller"])
+    r = de.DiffRHS(rhs)
+    tol = spec["tol"] or None
+    tol_eff = tol or 1e-9
+
+    def any_step(y0, hh):
+        kw = dict(rtol=tol, atol=tol) if tol else {}
+        intg = info["cls"]((n,), dtype=dt_, **kw)
+        if spec["controller"] == "user_fn":
+            util.passthrough_adaptation(intg)
+        try:
+            _, (dT, dY) = intg(r, np.asarray(0.0, dtype=dt_), np.asarray(y0, dtype=dt_), {}, np.asarray(hh, dtype=dt_))
+        except Exception as e:
+            if type(e).__name__ in ("CaseTimeout", "NoProgress"):
+                raise
+            return None, None          # the integrator refused the step: nothing was claimed
+        return float(dT), np.asarray(y0, dtype=dt_) + np.asarray(dY)
+    y = 2.0 * y if spec["ham"] != "henon_heiles" else y
+    dT, y1 = any_step(y, h)
+    rec.sample = {"spec": spec, "accepted_dT": dT}
+    if dT is None:
+        rec.bump("hard_steps_refused")
+        return rec.out()
+    rec.bump("hard_steps_accepted")
+    if abs(dT) < abs(h):
+        rec.bump("hard_steps_shortened")
+    rec.nontrivial = True
+    # (a) symmetric scheme: the step of -dT from the end point returns
+    dT2, y2 = any_step(y1, -dT)
+    if dT2 is not None and dT2 == -dT:
+        rec.bump("hard_reverse_probes")
+        err = float(np.max(np.abs(y2 - y)))
+        unit = 1e3 * tol_eff * (1 + float(np.max(np.abs(y1))))
+        rec.worst("hard_reverse_error_over_unit", err / unit)
+        if err > unit:
+            rec.violate("time_reversibility", "accepted_long_step_then_minus_step_does_not_return", feats, err=err, unit=unit, dT=dT)
+    # (b) the Jacobian of the map of size dT preserves J (neighbours advanced by another step size are not the same map: skipped)
+    delta = 1e-4
+    Mx = np.zeros((n, n))
+    ok = True
+    for j in range(n):
+        e = np.zeros(n)
+        e[j] = delta
+        dp, yp = any_step(y + e, dT)
+        dm, ym = any_step(y - e, dT)
+        if dp is None or dm is None or dp != dT or dm != dT:
+            ok = False
+            break
+        Mx[:, j] = (yp - ym) / (2 * delta)
+    if ok:
+        rec.bump("hard_jtest_probes")
+        dfc = _jdefect(Mx.astype(np.longdouble), J.astype(np.longdouble))
+        thr = 3e-6 * (1 + float(np.max(np.abs(Mx))) ** 2) + 1e2 * tol_eff / delta
+        rec.worst("hard_jtest_defect_over_threshold", dfc / thr)
+        if dfc > thr:
+            rec.violate("symplectic_form", "jacobian_of_an_accepted_long_step_does_not_preserve_J", feats, defect=dfc, threshold=thr, dT=dT)
     return rec.out()
 
 
@@ -269,6 +342,18 @@ def _mask(spec, info, ham, rhs, y, h, rec, feats, J, mask, n):
             warnings.simplefilter("ignore")
             if route == "set_method":
                 system.set_method(info["cls"], staggered_mask=mask.copy())
+            elif route == "method_change":
+                # the mask is given while ANOTHER splitting scheme is selected; the scheme is changed afterwards without repeating it
+                other = util.methods()[SPLIT[(SPLIT.index(spec["method"]) + 1 + spec["pseed"] % 2) % len(SPLIT)]]["cls"]
+                if spec["pseed"] % 3 == 0:
+                    system.set_method(other, staggered_mask=mask.copy())
+                else:
+                    system.method = other
+                    system.set_kick_vars(mask.copy())
+                if spec["pseed"] % 5 < 2:
+                    system.set_method(info["cls"])
+                else:
+                    system.method = info["cls"]
             else:
                 system.method = info["cls"]
                 system.set_kick_vars(mask.copy())
